@@ -284,6 +284,16 @@ var c15Nested = [][2]string{
 	{"BEGIN { a = [3, 1, 2]; s = a.sort(); s[0] = 99; s[2] += 1; print a, s }", "[3, 1, 2] [99, 2, 4]\n"},
 	{"BEGIN { a = [[2], [1]]; s = a.sort(); a[0] = 7; print s.length(), a }", "2 [7, [1]]\n"},
 	{"BEGIN { a = [1, null, 'x']; print a.contains(null), a.contains('x'), a.contains(2) }", "true true false\n"},
+	// stability on arrays longer than any small-slice special case: elements that tie on
+	// their string form (1 and '1', true / null / []) keep their order
+	{"BEGIN { a = ['1', 1, '1', 1, '1', 1, '1', 1, '1', 1, '1', 1, '1', 1, 0]; print a.sort() }", "[0, \"1\", 1, \"1\", 1, \"1\", 1, \"1\", 1, \"1\", 1, \"1\", 1, \"1\", 1]\n"},
+	{"BEGIN { a = [2, '2', 1, '1', 2, '2', 1, '1', 2, '2', 1, '1', 2, '2', 1, '1', 2, '2', 1, '1']; print a.sort() }", "[1, \"1\", 1, \"1\", 1, \"1\", 1, \"1\", 1, \"1\", 2, \"2\", 2, \"2\", 2, \"2\", 2, \"2\", 2, \"2\"]\n"},
+	{"BEGIN { a = ['b', true, null, 'a', false, null, true, 'b', null, false, 'a', true, null, false, 'c', true]; print a.sort() }", "[true, null, false, null, true, null, false, true, null, false, true, \"a\", \"a\", \"b\", \"b\", \"c\"]\n"},
+	// a null read from a missing index of ANOTHER array, handed to a method: writing
+	// through the receiver afterwards never reaches the other array
+	{"BEGIN { a = [1]; b = []; b.push(a[3]); b[0] = 7; print a, b, a.length() }", "[1] [7] 1\n"},
+	{"BEGIN { a = [1]; b = [a[5], 2]; b[0] = 7; print a, b }", "[1] [7, 2]\n"},
+	{"BEGIN { a = [1]; o = {}; b = [0]; print b.contains(a[2]), b.contains(o.k), a, o; b[0] = a[2]; b[0] = 5; print a, b }", "false false [1] {}\n[1] [5]\n"},
 }
 
 // VHC15Nested: each method acts on the array it was invoked on, also when calls are
